@@ -150,10 +150,12 @@ fn all_states(shape: &Shape, origin: u8, misses: u32) -> Vec<[u32; 6]> {
     v
 }
 
-fn build(shape: &Shape, passed: Option<u32>, origin: u8, worst: bool, misses: Option<u32>, acc: f64, via_osu_map: Option<&rosu_pp::Beatmap>, combo: Option<u32>) -> Performance<'static> {
+fn build(shape: &Shape, passed: Option<u32>, origin_raw: u8, worst: bool, misses: Option<u32>, acc: f64, via_osu_map: Option<&rosu_pp::Beatmap>, combo: Option<u32>) -> Performance<'static> {
+    // origin 3 = stable, said through the calculator's own lazer(false) setter instead of through the Difficulty
+    let (origin, by_setter) = if origin_raw == 3 { (1, true) } else { (origin_raw, false) };
     let mut d = Difficulty::new();
     match origin {
-        1 => d = d.lazer(false),
+        1 if !by_setter => d = d.lazer(false),
         2 => {
             let mode = match shape {
                 Shape::Mania { .. } => rosu_pp::model::mode::GameMode::Mania,
@@ -169,6 +171,9 @@ fn build(shape: &Shape, passed: Option<u32>, origin: u8, worst: bool, misses: Op
     // map-backed variant: the osu! calculator gets accuracy (and misses) first and is switched to the shape's mode afterwards
     if let Some(m) = via_osu_map {
         let mut p = Performance::new(m.clone()).difficulty(d).accuracy(acc);
+        if by_setter {
+            p = p.lazer(false);
+        }
         if let Some(k) = misses {
             p = p.misses(k);
         }
@@ -184,6 +189,9 @@ fn build(shape: &Shape, passed: Option<u32>, origin: u8, worst: bool, misses: Op
         return p.try_mode(mode).ok().expect("un-converted osu! map");
     }
     let mut p = Performance::new(shape.attrs()).difficulty(d).accuracy(acc);
+    if by_setter {
+        p = p.lazer(false);
+    }
     if let Some(m) = misses {
         p = p.misses(m);
     }
@@ -239,7 +247,7 @@ fn shapes(ctx: &Ctx) -> Vec<Shape> {
 
 fn main() {
     let ctx = Ctx::from_env("C13");
-    ctx.rule("case = (attribute shape with <= 5 (quick) / 8 (thorough) objects, miss count incl. unset and beyond the object count, origin lazer/stable/classic where the mode distinguishes them, priority; for taiko also whole-map attributes of 2/3/5/8/12 hits used with passed_objects(k), k in {0,1,n/2,n-1}, the distributions then ranging over k hits); per case the targets are a 0.5% grid united with every achievable accuracy and every midpoint between neighbouring achievable accuracies +-1e-9; oracle = misses as given (clamped to the objects) and |target - accuracy(generated)| <= min over all distributions with the same misses + 1e-12; non-trivial = more than one achievable accuracy");
+    ctx.rule("case = (attribute shape with <= 5 (quick) / 8 (thorough) objects, miss count incl. unset and beyond the object count, origin lazer / stable (through the Difficulty or through the calculator's own lazer(false) setter) / classic where the mode distinguishes them, priority; for taiko also whole-map attributes of 2/3/5/8/12 hits used with passed_objects(k), k in {0,1,n/2,n-1}, the distributions then ranging over k hits); per case the targets are a 0.5% grid united with every achievable accuracy and every midpoint between neighbouring achievable accuracies +-1e-9; oracle = misses as given (clamped to the objects) and |target - accuracy(generated)| <= min over all distributions with the same misses + 1e-12; non-trivial = more than one achievable accuracy");
     ctx.assume("accuracy is the documented formula per mode (osu! slider parts at their maximum because they are not specified); ties are not violations");
 
     // (attribute shape, passed_objects): for taiko — where the judgements of a partial play are simply the first k hits — the
@@ -286,7 +294,7 @@ fn main() {
     for (si, (shape, full, passed, via_map)) in entries.iter().enumerate() {
         let passed = *passed;
         let n = shape.objects();
-        let origins: u64 = if shape.has_origins() { 3 } else { 1 };
+        let origins: u64 = if shape.has_origins() { 4 } else { 1 };
         let prios: u64 = if matches!(shape, Shape::Catch { .. }) { 1 } else { 2 };
         // miss options: unset, 0..=n, n+2
         let miss_opts = u64::from(n) + 3;
@@ -298,7 +306,8 @@ fn main() {
         ctx.universe(&name, total, |idx, l: &mut Local<'_>| {
             let combo = combos[(idx % combos.len() as u64) as usize];
             let idx = idx / combos.len() as u64;
-            let origin = (idx % origins) as u8;
+            let origin_raw = (idx % origins) as u8;
+            let origin = if origin_raw == 3 { 1 } else { origin_raw };
             let r = idx / origins;
             let worst = r % prios == 1;
             let mi = r / prios;
@@ -334,11 +343,11 @@ fn main() {
             l.states(states.len() as u64);
             for t in targets {
                 let t = t.clamp(0.0, 100.0);
-                let g = build(full, passed, origin, worst, misses_arg, t, via_map.as_ref(), combo).generate_state();
+                let g = build(full, passed, origin_raw, worst, misses_arg, t, via_map.as_ref(), combo).generate_state();
                 let gs = slots(&g);
                 l.checked(1);
                 if g.misses != misses {
-                    l.violation("misses", || format!("attributes={full:?} passed_objects={passed:?} combo={combo:?} shape={shape:?} origin={origin} worst={worst} misses={misses_arg:?} target={t}\ngenerated state has {} misses, expected {misses}: {g:?}", g.misses));
+                    l.violation("misses", || format!("attributes={full:?} passed_objects={passed:?} combo={combo:?} shape={shape:?} origin={origin_raw} worst={worst} misses={misses_arg:?} target={t}\ngenerated state has {} misses, expected {misses}: {g:?}", g.misses));
                     return;
                 }
                 let ga = frac(acc_frac(shape, origin, &gs));
@@ -358,7 +367,7 @@ fn main() {
                     let mode = mode.split(' ').next().unwrap_or("").to_lowercase();
                     l.violation(&format!("not_closest_{mode}"), || {
                         format!(
-                            "attributes={full:?} passed_objects={passed:?} combo={combo:?} shape={shape:?} origin={origin} (0 lazer, 1 stable, 2 classic) worst={worst} misses={misses_arg:?} target accuracy={t}%\ngenerated {g:?}\n accuracy {ga} at distance {gd}; a distribution with the same misses reaches distance {best}"
+                            "attributes={full:?} passed_objects={passed:?} combo={combo:?} shape={shape:?} origin={origin_raw} (0 lazer, 1 stable, 2 classic, 3 stable through the lazer(false) setter) worst={worst} misses={misses_arg:?} target accuracy={t}%\ngenerated {g:?}\n accuracy {ga} at distance {gd}; a distribution with the same misses reaches distance {best}"
                         )
                     });
                     return;
